@@ -228,6 +228,114 @@ pub fn run(ctx: &'static Ctx) {
     ds.par_iter().for_each(|r| check_desc(ctx, r));
     ctx.engine("E4.descriptors", json!({"programs": nd, "alphabet_sizes": {"u8": a8.len(), "u16": a16.len(), "u32": a32.len(), "u64": a64.len()}}));
 
+    // ---- value sweeps (the value principle): products of whole byte domains and util::value_set, compared directly with
+    // the specification encoding (a difference is then reported through the ordinary descriptor check)
+    {
+        let quick = ctx.quick();
+        let lean = |r: R| {
+            match catch(|| r.real()) {
+                Ok(b) if b == r.reference() => {}
+                _ => check_desc(ctx, &r),
+            }
+        };
+        let nv = AtomicU64::new(0);
+        // Register: 13 spaces x every width x offsets (thorough: every offset) x every access size x 3 addresses
+        let offs: Vec<u8> = if quick { vec![0, 1, 7, 8, 16, 32, 0xff] } else { (0..=255).collect() };
+        (0..13u8).into_par_iter().for_each(|sp| {
+            for w in 0..=255u8 {
+                for o in &offs {
+                    for ac in 0..5u8 {
+                        for ad in [0x1014u64, 0, 0x0102_0304_0506_0708] {
+                            lean(R::Register(sp, w, *o, ac, ad));
+                        }
+                    }
+                }
+            }
+            nv.fetch_add(256 * offs.len() as u64 * 15, Ordering::Relaxed);
+        });
+        // IO: every alignment x every length; every minimum with max = min, min + 7
+        (0..=255u8).into_par_iter().for_each(|al| {
+            for le in 0..=255u8 {
+                lean(R::Io(0x3f8, 0x3ff, al, le));
+                lean(R::Io(0, 0xffff, al, le));
+            }
+            nv.fetch_add(512, Ordering::Relaxed);
+        });
+        let v16 = crate::util::value_set(16, 0x0201, quick);
+        let v32 = crate::util::value_set(32, 0x0403_0201, quick);
+        let v64 = crate::util::value_set(64, 0x0807_0605_0403_0201, quick);
+        v16.par_iter().for_each(|m| {
+            let m = *m as u16;
+            lean(R::Io(m, m, 1, 1));
+            lean(R::Io(m, m.saturating_add(7), 8, 8));
+            lean(R::Io(0, m, 1, 0x10));
+            nv.fetch_add(3, Ordering::Relaxed);
+        });
+        // Memory32Fixed and Interrupt: each value against a few partners, both ways round
+        v32.par_iter().for_each(|x| {
+            let x = *x as u32;
+            for rw in [false, true] {
+                for y in [0u32, 1, 0x1000, x, x.wrapping_add(1), !x, 0xffff_ffff] {
+                    lean(R::Mem32Fixed(rw, x, y));
+                    lean(R::Mem32Fixed(rw, y, x));
+                }
+            }
+            for fl in 0..16u8 {
+                lean(R::Interrupt(fl & 1 != 0, fl & 2 != 0, fl & 4 != 0, fl & 8 != 0, x));
+            }
+            nv.fetch_add(28 + 16, Ordering::Relaxed);
+        });
+        // address spaces: every minimum of the value set with maxima {min, min+1, min|0xff, min|0xfff, top-1}, every kind;
+        // every translation of the value set
+        let mut kinds = vec![AsKind::Io, AsKind::Bus];
+        for c in 0..4u8 {
+            for rw in [false, true] {
+                kinds.push(AsKind::Memory(c, rw));
+            }
+        }
+        for k in &kinds {
+            let k = *k;
+            let tr = |v: u64| if k == AsKind::Bus { None } else { Some(v) };
+            v16.par_iter().for_each(|m| {
+                let m = *m as u16;
+                for ma in [m, m.saturating_add(1), m | 0xff, m | 0xfff, 0xfffe] {
+                    if m <= ma && !(m == 0 && ma == 0xffff) {
+                        lean(R::As16(k, m, ma, None));
+                        lean(R::As16(k, m, ma, tr(m as u64).map(|v| v as u16)));
+                    }
+                }
+                lean(R::As16(k, 0x1000, 0x1fff, tr(m as u64).map(|v| v as u16)));
+                nv.fetch_add(11, Ordering::Relaxed);
+            });
+            v32.par_iter().for_each(|m| {
+                let m = *m as u32;
+                for ma in [m, m.saturating_add(1), m | 0xff, m | 0xfff, m | 0xffff, 0xffff_fffe] {
+                    if m <= ma && !(m == 0 && ma == 0xffff_ffff) {
+                        lean(R::As32(k, m, ma, None));
+                        lean(R::As32(k, m, ma, tr(m as u64).map(|v| v as u32)));
+                    }
+                }
+                lean(R::As32(k, 0x1000_0000, 0x1fff_ffff, tr(m as u64).map(|v| v as u32)));
+                nv.fetch_add(13, Ordering::Relaxed);
+            });
+            v64.par_iter().for_each(|m| {
+                let m = *m;
+                for ma in [m, m.saturating_add(1), m | 0xff, m | 0xfff, m | 0xffff_ffff, u64::MAX - 1] {
+                    if m <= ma && !(m == 0 && ma == u64::MAX) {
+                        lean(R::As64(k, m, ma, None));
+                        lean(R::As64(k, m, ma, tr(m)));
+                    }
+                }
+                lean(R::As64(k, 0x1_0000_0000, 0x1_ffff_ffff, tr(m)));
+                nv.fetch_add(13, Ordering::Relaxed);
+            });
+        }
+        let n = nv.load(Ordering::Relaxed);
+        ctx.st(n);
+        ctx.tr(n);
+        ctx.engine("E3.descriptor-values", json!({"descriptors": n, "register": format!("13 spaces x 256 widths x {} offsets x 5 access sizes x 3 addresses", offs.len()), "io": "256 alignments x 256 lengths x 2 ranges; value set of minima", "value_set_sizes": {"u16": v16.len(), "u32": v32.len(), "u64": v64.len()}, "address_spaces": "10 kinds x minima of the value set x 5-6 maxima, with and without translation"}));
+    }
+
     // ---- templates: all sequences of <= 3 descriptors over one instance of each of the 11 kinds
     let base = one_of_each();
     let mut seqs: Vec<Vec<R>> = vec![vec![]];
@@ -327,4 +435,4 @@ pub fn run(ctx: &'static Ctx) {
 }
 
 pub const RULE: &str = "every descriptor kind over per-field alphabets (0,1,2,max,max-1,mid,mid+1,2 distinct patterns, all single bits, 2 seed values): full products for 2-field kinds, all min<=max pairs with representable size for address spaces, all 16 interrupt flag sets, 13 spaces x 5 access sizes; templates: all sequences of <=3 over 11 kinds, k identical for every k up to payload 4200. distinct = distinct byte streams";
-pub const ASSUME: &[&str] = &["values range over the stated alphabets, not the full 2^64 per field", "min <= max and max-min+1 representable (other inputs belong to C18)"];
+pub const ASSUME: &[&str] = &["values range over the stated alphabets and util::value_set (Register: full product of widths x offsets x access sizes x spaces), not the full 2^32 / 2^64 per field", "min <= max and max-min+1 representable (other inputs belong to C18)"];
